@@ -41,7 +41,7 @@ REPS = [("time", OP, SYM), ("meas", "==", "m"), ("tag", "k", OP, SYM), ("tag_exi
 
 def h_expr(params):
     qd0 = _untuple(params["q"])
-    h = H({"storage": "mem"})
+    h = H({"storage": "mem", "floats": params.get("floats", False)})
     symtime.CLOCK.reset()
     lpe.HASH_OK[0] = True
     if lpe.is_symbolic():
@@ -130,6 +130,8 @@ def obligations(tier):
             continue
         seen.add(oid)
         obs.append(_ob(oid, q, budget=120))
+    for q in L_FIELD + [("and", ("field", "f", OP, SYM), ("field", "f", OP, SYM)), ("or", ("not", ("field", "f", OP, SYM)), ("field_exists", "f")), ("not", ("field_map", "f", "f_neg", OP, SYM))]:
+        obs.append(_ob(f"floats/{q_repr(q)}", q, budget=120, floats=True))
     obs.append(_ob("twin/leaf", ("tag", "k", OP, SYM), twin=True))
     obs.append(_ob("twin/compound", ("and", ("time", OP, SYM), ("field", "f", OP, SYM)), twin=True))
     ch = ["h_tag_cmp", "h_meas_cmp", "h_tag_regex", "h_tag_and_field", "h_field_cmp"]
